@@ -544,7 +544,7 @@ impl Worker {
                 ent.ev["k"] = json!(self.rel_idx);
                 self.rel_idx += 1;
             }
-            if rec.record_raw || ent.relevant {
+            if rec.record_raw || ent.relevant || inject.is_some() {
                 rec.events.push(ent.ev);
             }
         }
